@@ -65,6 +65,12 @@ SHARDS.update({
     "urwid/widget/edit.py:Edit.keypress": (6, 5),
 })
 
+SHARDS.update({
+    "urwid/widget/overlay.py:Overlay.render#fixed": (4, 4),
+    "urwid/widget/overlay.py:Overlay.render#flow": (4, 4),
+    "urwid/widget/padding.py:Padding.render#fixed": (4, 4),
+})
+
 # A contract written for one property also serves the others whose statement depends on the same function
 # (the check of each listed property verifies it too).  Keys are registry keys or "module:<contract module>".
 ALSO_SERVES = {
